@@ -688,6 +688,265 @@ def _int64(r, nm):
         return None
 
 
+# ------------------------------------------------------------------------------------------------------------------
+# (d) ConcurrentFlyweight::findOrInsert + fetch under interference of another lane (above the hash map)
+# ------------------------------------------------------------------------------------------------------------------
+FWC_WRAPPER = FW_WRAPPER[:FW_WRAPPER.index('extern "C" {')].replace("static FW::Handle HANDLES[1];", "static FW::Handle HANDLES[2];") + r"""extern "C" {
+__attribute__((noinline)) void k_fw_init(int nb, unsigned long nextslot, unsigned long slotcount, int reserve_first) {
+    g_fw = &HOLD.f; FW* f = g_fw;
+    new (&f->Lanes) SeqConcurrentLanes(2);
+    f->HandleCount = 2;
+    new (&f->Handles) std::unique_ptr<FW::Handle[]>(HANDLES);
+    new (&f->Slots) std::unique_ptr<const VT*[]>(SLOTS);
+    Map* m = &f->Mapping;
+    new (&m->Lanes) SeqConcurrentLanes(2);
+    m->BucketCount = (std::size_t)nb;
+    new (&m->Buckets) std::unique_ptr<std::atomic<BL*>[]>(BUCKETS);
+    slot(0) = 0; slot(1) = 0;
+    *reinterpret_cast<std::size_t*>(&m->Size) = 0;
+    m->MaxSizeBeforeGrow = 1000; m->LoadFactor = 1.0;
+    *reinterpret_cast<std::size_t*>(&f->NextSlot) = nextslot;
+    *reinterpret_cast<std::size_t*>(&f->SlotCount) = slotcount;
+    const_cast<bool&>(f->FirstSlotIsReserved) = reserve_first != 0;
+    for (int l = 0; l < 2; l++) { HANDLES[l].NextSlot = FW::NONE; HANDLES[l].NextNode = nullptr; }
+    for (int i = 0; i < 8; i++) SLOTS[i] = nullptr;
+}
+/* the two operations under test, through lane `lane`; out: [0] index, [1] inserted */
+__attribute__((noinline)) void k_fw_find_or_insert(unsigned long lane, int key, unsigned long* out) {
+    auto r = F()->findOrInsert(lane, key);
+    out[0] = r.first; out[1] = r.second ? 1 : 0;
+}
+__attribute__((noinline)) int k_fw_fetch(unsigned long lane, unsigned long idx) { return F()->fetch(lane, idx); }
+/* harness accessors */
+__attribute__((noinline)) BL* k_fw_mknode(unsigned long idx) { return static_cast<BL*>(F()->Mapping.node(idx)); }
+__attribute__((noinline)) void k_fw_link(BL* n, int key) {
+    Map* m = &F()->Mapping; const_cast<int&>(n->Value.first) = key;
+    std::size_t b = (std::size_t)(unsigned)key % m->BucketCount;
+    n->Next = reinterpret_cast<BL*>(slot((int)b)); slot((int)b) = reinterpret_cast<std::uintptr_t>(n);
+    *reinterpret_cast<std::size_t*>(&m->Size) += 1;
+}
+__attribute__((noinline)) void k_fw_set_slot(unsigned long i, BL* n) { SLOTS[i] = n ? &n->Value : nullptr; }
+__attribute__((noinline)) void k_fw_set_handle(unsigned long lane, unsigned long s, BL* n) { HANDLES[lane].NextSlot = s; HANDLES[lane].NextNode = n; }
+__attribute__((noinline)) long k_fw_find(int key) { auto p = F()->Mapping.weakFind(0, key); return p ? (long)p->second : -1; }
+__attribute__((noinline)) unsigned long k_fw_mapsize(void) { return *reinterpret_cast<std::size_t*>(&F()->Mapping.Size); }
+__attribute__((noinline)) unsigned long k_fw_nextslot(void) { return *reinterpret_cast<std::size_t*>(&F()->NextSlot); }
+__attribute__((noinline)) unsigned long k_fw_handle_slot(unsigned long lane) { return HANDLES[lane].NextSlot; }
+__attribute__((noinline)) int k_fw_handle_has_node(unsigned long lane) { return HANDLES[lane].NextNode != nullptr; }
+__attribute__((noinline)) int k_fw_slot_key(unsigned long i) { return SLOTS[i] ? SLOTS[i]->first : -1; }
+__attribute__((noinline)) long k_fw_slot_index(unsigned long i) { return SLOTS[i] ? (long)SLOTS[i]->second : -1; }
+__attribute__((noinline)) int k_fw_slot_set(unsigned long i) { return SLOTS[i] != nullptr; }
+}
+"""
+
+# CBMC: IR-derived C (yield translation: a hook before every atomic access and every plain store / load through a pointer inside
+# findOrInsert and the hash map's get); native -DVERIF_NATIVE: the same with the inputs from argv (replay at a forced site)
+FWC_HARNESS = r"""
+#include "verif_rt.h"
+#define MAXN (PRE + 4)
+static void env_point(int site);
+#define VERIF_YIELD_AT(k) env_point(k)
+#include "fwc_y.c"
+typedef NODE_T NODE;
+NODE POOL[MAXN]; int pool_used = 0;
+uint8_t* _Znwm(uint64_t n) { VERIF_ASSERT(n == sizeof(NODE), "only bucket nodes are allocated"); VERIF_ASSERT(pool_used < MAXN, "pool large enough"); return (uint8_t*)&POOL[pool_used++]; }
+uint8_t* _Znam(uint64_t n) { VERIF_ASSERT(0, "operator new[] (growth) is outside the claim and must not be reached"); __CPROVER_assume(0); return 0; }
+void _ZdlPv(uint8_t* p) { VERIF_ASSERT(0, "nothing is freed"); }
+void _ZdaPv(uint8_t* p) { VERIF_ASSERT(0, "nothing is freed"); }
+uint8_t TRYGROW(TRYGROW_ARGS) { VERIF_ASSERT(0, "growth is outside the claim and must not be reached"); __CPROVER_assume(0); return 0; }
+void verif_assert_fail(uint8_t* a, uint8_t* f, uint32_t l, uint8_t* fn) { VERIF_ASSERT(0, "assert() inside the real code failed"); __CPROVER_assume(0); }
+#ifdef VERIF_NATIVE
+static int ai = 1, ac; static char** av;
+static int64_t nondet_i64(void) { if (ai >= ac) { printf("not enough inputs\n"); exit(2); } return (int64_t)strtoll(av[ai++], 0, 0); }
+#else
+int64_t nondet_i64(void);
+#endif
+#define NONE 0xffffffffffffffffULL
+/* inputs, one variable each so that they can be read from the trace */
+int64_t FC_NEXT0, FC_PK0, FC_PK1, FC_PX0, FC_PX1, FC_RESA, FC_SA, FC_RESB, FC_SB, FC_KA, FC_KB;
+int32_t PK[PRE + 1]; uint64_t PX[PRE + 1]; NODE* PN[PRE + 1];
+int in_op = 0, in_env = 0, env_taken = 0; int32_t KA, KB; uint64_t outA[2], outB[2];
+/* lane B: a complete findOrInsert(KB) through its own lane, then it uses the index it learned at once */
+static void lane_b(void) {
+  in_env = 1; env_taken = 1;
+  k_fw_find_or_insert(1, KB, outB);
+  VERIF_ASSERT(k_fw_slot_set(outB[0]), "the slot of an index returned to another lane is filled (fetch would dereference it)");
+  VERIF_ASSERT((int32_t)k_fw_fetch(1, outB[0]) == KB, "an index returned to another lane can be fetched at once and yields the key");
+  in_env = 0;
+}
+static void env_point(int site) { if (in_op && !in_env && !env_taken && site == SITE) lane_b(); }
+#ifdef VERIF_NATIVE
+int main(int argc, char** argv) {
+  ac = argc; av = argv;
+#else
+int main(void) {
+#endif
+  verif_init_vtables();
+  FC_NEXT0 = nondet_i64(); uint64_t next0 = (uint64_t)FC_NEXT0; __CPROVER_assume(next0 <= 4);
+  k_fw_init(1, next0, 8, 0);
+  for (int i = 0; i < PRE; i++) {
+    int64_t k = nondet_i64(), x = nondet_i64(); __CPROVER_assume(k >= 0 && k < 8);
+    if (i == 0) { FC_PK0 = k; FC_PX0 = x; } else { FC_PK1 = k; FC_PX1 = x; }
+    PK[i] = (int32_t)k; PX[i] = (uint64_t)x; __CPROVER_assume(PX[i] < next0);
+    for (int j = 0; j < i; j++) __CPROVER_assume(PK[j] != PK[i] && PX[j] != PX[i]);
+    PN[i] = k_fw_mknode(PX[i]); k_fw_link(PN[i], PK[i]); k_fw_set_slot(PX[i], PN[i]); }
+  /* both lanes: no reservation, or a slot reserved earlier (below NextSlot, unused, empty, distinct) with its prepared node */
+  FC_RESA = nondet_i64(); __CPROVER_assume(FC_RESA == 0 || FC_RESA == 1); uint64_t sa = NONE, sb = NONE;
+  if (FC_RESA) { FC_SA = nondet_i64(); sa = (uint64_t)FC_SA; __CPROVER_assume(sa < next0); for (int j = 0; j < PRE; j++) __CPROVER_assume(PX[j] != sa); k_fw_set_handle(0, sa, k_fw_mknode(sa)); }
+  FC_RESB = nondet_i64(); __CPROVER_assume(FC_RESB == 0 || FC_RESB == 1);
+  if (FC_RESB) { FC_SB = nondet_i64(); sb = (uint64_t)FC_SB; __CPROVER_assume(sb < next0 && sb != sa); for (int j = 0; j < PRE; j++) __CPROVER_assume(PX[j] != sb); k_fw_set_handle(1, sb, k_fw_mknode(sb)); }
+  FC_KA = nondet_i64(); FC_KB = nondet_i64(); __CPROVER_assume(FC_KA >= 0 && FC_KA < 8 && FC_KB >= 0 && FC_KB < 8); KA = (int32_t)FC_KA; KB = (int32_t)FC_KB;
+  in_op = 1;
+  k_fw_find_or_insert(0, KA, outA);
+  in_op = 0;
+  if (SITE == NSITES && !env_taken) lane_b();           /* lane B after lane A's operation has returned */
+  __CPROVER_assume(env_taken);                          /* executions that do not reach the chosen site belong to other queries */
+  /* lane A uses its index */
+  VERIF_ASSERT(k_fw_slot_set(outA[0]) && (int32_t)k_fw_fetch(0, outA[0]) == KA, "the index returned to the operation's lane fetches its key");
+  VERIF_ASSERT((KA == KB) == (outA[0] == outB[0]), "equal keys get the same index, different keys different indices");
+  VERIF_ASSERT(!(KA == KB && outA[1] && outB[1]), "a key is inserted by at most one lane");
+  /* the table: every key of the map has its slot, the slot points to its entry */
+  int na = -1, nb = -1; for (int j = 0; j < PRE; j++) { if (PK[j] == KA) na = j; if (PK[j] == KB) nb = j; }
+  for (int j = 0; j < PRE; j++) VERIF_ASSERT(k_fw_find(PK[j]) == PX[j] && (int32_t)k_fw_slot_key(PX[j]) == PK[j] && k_fw_slot_index(PX[j]) == PX[j], "existing entries keep their index and slot");
+  if (na >= 0) VERIF_ASSERT(outA[0] == PX[na] && !outA[1], "an indexed key returns its index and is not re-inserted");
+  if (nb >= 0) VERIF_ASSERT(outB[0] == PX[nb] && !outB[1], "an indexed key returns its index and is not re-inserted");
+  VERIF_ASSERT(k_fw_find(KA) == outA[0] && (int32_t)k_fw_slot_key(outA[0]) == KA && k_fw_slot_index(outA[0]) == outA[0], "the slot of the returned index points to the entry of the key, which maps to the index");
+  VERIF_ASSERT(k_fw_find(KB) == outB[0] && (int32_t)k_fw_slot_key(outB[0]) == KB && k_fw_slot_index(outB[0]) == outB[0], "the slot of the returned index points to the entry of the key, which maps to the index");
+  VERIF_ASSERT(k_fw_mapsize() == PRE + (na < 0) + (nb < 0 && KB != KA), "the map holds exactly the old keys and the new ones");
+  /* lanes: a lane that did not insert keeps a reservation whose slot is empty and used by nobody; one that inserted has none */
+  for (int l = 0; l < 2; l++) {
+    uint64_t ins = l ? outB[1] : outA[1]; uint64_t hs = k_fw_handle_slot(l);
+    if (ins) VERIF_ASSERT(hs == NONE && !k_fw_handle_has_node(l), "a lane that inserted has consumed its reservation");
+    else VERIF_ASSERT(hs != NONE && hs < k_fw_nextslot() && k_fw_handle_has_node(l) && !k_fw_slot_set(hs) && hs != outA[0] && hs != outB[0], "a lane that did not insert keeps its reservation: slot empty, not the index of any key");
+  }
+  VERIF_ASSERT(k_fw_handle_slot(0) == NONE || k_fw_handle_slot(0) != k_fw_handle_slot(1), "the two lanes never hold the same reserved slot");
+  VERIF_ASSERT(k_fw_nextslot() == next0 + (FC_RESA ? 0 : 1) + (FC_RESB ? 0 : 1), "NextSlot advances exactly once per newly reserved slot");
+#ifdef WITNESS
+  __CPROVER_assert(0, "witness");
+#endif
+#ifdef VERIF_NATIVE
+  printf("replay finished without assertion failure: A idx=%lu ins=%lu, B idx=%lu ins=%lu\n", (unsigned long)outA[0], (unsigned long)outA[1], (unsigned long)outB[0], (unsigned long)outB[1]);
+#endif
+  return 0;
+}
+"""
+
+FWC_DRIVER = r"""
+#include <stdio.h>
+#include <stdint.h>
+#include <stdlib.h>
+void k_fw_init(uint32_t, uint64_t, uint64_t, uint32_t); void k_fw_find_or_insert(uint64_t, uint32_t, uint64_t*); uint64_t k_fw_find(uint32_t); uint64_t k_fw_mapsize(void);
+uint32_t k_fw_fetch(uint64_t, uint64_t); uint64_t k_fw_nextslot(void); uint64_t k_fw_handle_slot(uint64_t); uint32_t k_fw_handle_has_node(uint64_t); uint32_t k_fw_slot_key(uint64_t); uint32_t k_fw_slot_set(uint64_t);
+__attribute__((weak)) void verif_init_vtables(void) {}
+__attribute__((weak)) void* _Znwm(uint64_t n) { return calloc(1, n); }
+__attribute__((weak)) void* _Znam(uint64_t n) { printf("operator new[] reached\n"); exit(5); }
+__attribute__((weak)) void _ZdlPv(void* p) { }
+__attribute__((weak)) void _ZdaPv(void* p) { }
+__attribute__((weak)) uint8_t TRYGROW(void* m, uint64_t h) { printf("tryGrow reached\n"); exit(5); }
+__attribute__((weak)) void verif_assert_fail(void* a, void* f, uint32_t l, void* fn) { printf("assert failed\n"); exit(6); }
+int main(void) {
+  unsigned s = 2463534242u;
+  verif_init_vtables();
+  for (int h = 0; h < 120; h++) {
+    k_fw_init(1 + (h & 1), 0, 8, 0);
+    for (int i = 0; i < 10; i++) {
+      s = s * 1103515245u + 12345u; uint32_t key = (s >> 16) % 6; uint64_t lane = (s >> 27) & 1;
+      uint64_t out[2]; k_fw_find_or_insert(lane, key, out);
+      printf("h%d lane %lu foi %u -> idx %lu ins %lu fetch %u find %ld size %lu next %lu handles %ld/%u %ld/%u |", h, (unsigned long)lane, key, (unsigned long)out[0], (unsigned long)out[1],
+             k_fw_fetch(lane, out[0]), (long)k_fw_find(key), (unsigned long)k_fw_mapsize(), (unsigned long)k_fw_nextslot(), (long)k_fw_handle_slot(0), k_fw_handle_has_node(0),
+             (long)k_fw_handle_slot(1), k_fw_handle_has_node(1));
+      for (int j = 0; j < 8; j++) if (k_fw_slot_set(j)) printf(" %d:%u", j, k_fw_slot_key(j)); printf("\n");
+    }
+  }
+  return 0;
+}
+"""
+
+
+def _post_fw(src, t, maps, what):
+    """shared post-processing of a translated flyweight TU: assert hook, integer-typed bucket heads, vtables, harness macros"""
+    src = src.replace("__assert_fail", "verif_assert_fail")
+    src, n = re.subn(r"^(struct S__struct_std____atomic_base_\w*_ \{ )struct S__\w*BucketList_\*( f0; \};)$", r"\1uint64_t\2", src, flags=re.M)
+    if n != 1:
+        raise EngineError("atomic bucket-head struct not recognised in the translated %s C (%d matches)" % (what, n))
+    m = re.search(r"^(struct S__\w*BucketList_)\* k_fw_mknode\(", src, re.M)
+    if not m:
+        raise EngineError("k_fw_mknode not found in the translated %s C" % what)
+    node_t = m.group(1)
+    init = []
+    for mv in re.finditer(r"^@(_ZTV\w+) = [^\n]*\{ \[(\d+) x i8\*\] \[([^\n]*)\] \}", t, re.M):
+        ents = re.findall(r"i8\* (null|bitcast \([^@]*@(\w+) to i8\*\))", mv.group(3))
+        for k, (e, fn) in enumerate(ents):
+            if fn and re.search(r"^[^\n;]*\b%s\([^;\n]*\) \{$" % re.escape(fn), src, re.M):
+                init.append("  %s.f0.a[%d] = (uint8_t*)&%s;" % (mv.group(1), k, fn))
+    if not any("5valueEv" in x for x in init):
+        raise EngineError("vtable entry of BucketList::value() not found in the lowered IR (%s)" % what)
+    src += "\nvoid verif_init_vtables(void) {\n" + "\n".join(init) + "\n}\n"
+    mg = re.search(r"^uint8_t %s\(([^)]*)\);" % re.escape(maps[0]), src, re.M)
+    if not mg:
+        raise EngineError("declaration of the hash map's tryGrow not found in the translated %s C" % what)
+    args = ", ".join("%s a%d" % (a.strip(), i) for i, a in enumerate(mg.group(1).split(",")))
+    return "#define NODE_T %s\n#define TRYGROW %s\n#define TRYGROW_ARGS %s\n" % (node_t, maps[0], args) + src
+
+
+def _prepare_fwc(work, tier):
+    cpp = os.path.join(work, "fwc.cpp")
+    open(cpp, "w").write(FWC_WRAPPER)
+    ll = K.lower(cpp, os.path.join(work, "fwc.ll"), extra=["-fno-exceptions"])
+    t, names = _cut_trygrow(open(ll).read())
+    maps = [n for n in names if "ConcurrentInsertOnlyHashMap" in n]
+    if len(maps) != 1 or len(names) != 1:
+        raise EngineError("expected exactly the hash map's tryGrow as a separate function in the lowered two-lane flyweight IR: %s" % names)
+    open(ll, "w").write(t)
+    c24.strip_personality(ll)
+    plain = K.translate(ll, os.path.join(work, "fwc.c"))
+    open(plain, "w").write(_post_fw(open(plain).read(), t, maps, "two-lane flyweight"))
+    drv = os.path.join(work, "drvfwc.c")
+    open(drv, "w").write(FWC_DRIVER.replace("TRYGROW", maps[0]))
+    nlines = K.differential(work, drv, plain, cpp, extra_cxx=["-fno-exceptions"], extra_c=["-D__dso_handle=verif_dso_handle"])
+    ypath = K.translate(ll, os.path.join(work, "fwc_y.c"), yield_mode=True)
+    ysrc = open(ypath).read()
+    # yield sites: inside findOrInsert and the hash map's get (wherever the compiler put it): every atomic access (already marked by the
+    # translator) and every plain load / store through a pointer that is not a local of the function
+    funcs = [m for m in re.finditer(r"^[^\n;{}]*\b(\w*(?:12findOrInsert|3getI)\w*)\([^;\n]*\) \{\n.*?^\}\n", ysrc, re.M | re.S)]
+    if not any("12findOrInsert" in m.group(1) for m in funcs):
+        raise EngineError("findOrInsert not found as a function in the translated two-lane flyweight C")
+    kinds = {}
+    cnt = [0]
+    pieces, pos = [], 0
+    for m in funcs:
+        out = []
+        for ln in m.group(0).splitlines():
+            kind = None
+            if "VERIF_YIELD();" in ln:
+                kind = "atomic"
+                ln = ln.replace("VERIF_YIELD();", "").rstrip()
+                ln = re.sub(r"^(\s*)\s*", r"\1", ln)
+            elif re.match(r"^\s*\*[^=;]+ = [^;]*;\s*$", ln) and not re.match(r"^\s*\*\(*&?v_\w+_mem\b", ln):
+                kind = "store"
+            elif re.match(r"^\s*v_\w+ = \(\*[^;]*\);\s*$", ln) and "_mem)" not in ln:
+                kind = "load"
+            if kind:
+                ind = re.match(r"^\s*", ln).group(0)
+                out.append("%sVERIF_YIELD_AT(%d); %s" % (ind, cnt[0], ln.strip()))
+                kinds[cnt[0]] = (kind, ln.strip()[:90])
+                cnt[0] += 1
+            else:
+                out.append(ln)
+        pieces.append(ysrc[pos:m.start()])
+        pieces.append("\n".join(out) + "\n")
+        pos = m.end()
+    pieces.append(ysrc[pos:])
+    ysrc = "".join(pieces).replace("VERIF_YIELD();", "")
+    open(ypath, "w").write(_post_fw(ysrc, t, maps, "two-lane flyweight (yield)"))
+    # the yield translation is what CBMC and the replays see: validate it too
+    yw = os.path.join(work, "fwc_y_plain.c")
+    open(yw, "w").write('#define VERIF_YIELD_AT(k)\n#include "fwc_y.c"\n')
+    nlines += K.differential(work, drv, yw, cpp, extra_cxx=["-fno-exceptions"], extra_c=["-D__dso_handle=verif_dso_handle"])
+    h = os.path.join(work, "hfwc.c")
+    open(h, "w").write(FWC_HARNESS)
+    return {"h": h, "cpp": cpp, "nlines": nlines, "sites": kinds}
+
+
 def run(tier, seed, only=None):
     t0 = time.time()
     res = common.Result(PID, "other")
